@@ -24,6 +24,7 @@ import (
 	"sync"
 	"time"
 
+	"github.com/benbjohnson/litestream/file"
 	"github.com/superfly/ltx"
 
 	"verif/harness/hx"
@@ -178,6 +179,8 @@ func (j restoreJob) line() string {
 func restoreSig(m Mut, what string) string {
 	k := "other"
 	switch {
+	case strings.Contains(what, "only partly present"):
+		k = "missing-index-tail-undetected"
 	case strings.Contains(what, "reporting a passed integrity check"):
 		k = "unverified-success"
 	case strings.Contains(what, ".tmp left"):
@@ -404,6 +407,8 @@ func judgeRestore(res *hx.Result, o restoreOut) bool {
 		// returned is decided by timing; nothing to predict (the oracle above still applies: on a good
 		// replica both outcomes are legitimate, on a bad image nil never is)
 		res.Count(fmt.Sprintf("restore/cancel-race(bad-image=%v)->%s out=%s", j.hist.BadImage != "", o.obs.Res, o.obs.Out))
+	} else if j.mut.Kind == "legacy" {
+		// no model comparison: the legacy restore path has no Lean model here (C19 owns it)
 	} else if j.mut.Kind == "foreign-wal" {
 		// no model comparison: the output-protocol model has no pre-existing sidecars (DESIGN.md Deviations)
 	} else if o.obs.Res != "CRASH" && hx.Differs(o.obs.canon(), o.model) {
@@ -964,6 +969,32 @@ func bigSQLite(dir string, pageSize, minSize int) ([]byte, error) {
 	return os.ReadFile(p)
 }
 
+// legacyHist builds the legacy-layout replica of a history spec and its jobs.
+func legacyHist(h HistSpec, root string, all bool) (*replicaEnv, []restoreJob, error) {
+	var lr *legacyReplica
+	var err error
+	if h.Legacy == 1 {
+		lr, err = buildLegacyReplica(root, h.Seed, 3, 0, false)
+	} else {
+		lr, err = buildLegacyReplica(root, h.Seed, 4, 2, true)
+	}
+	if err != nil {
+		return nil, nil, err
+	}
+	env := &replicaEnv{root: root, dir: lr.dir, client: file.NewReplicaClient(lr.dir)}
+	var jobs []restoreJob
+	base := restoreJob{env: env, hist: h, failStep: "-", sizes: true, iok: true}
+	legacyJobs(lr, hx.NewRand(h.Seed^0x1e9ac7), all, func(m Mut, f func(*restoreJob)) {
+		j := base
+		j.mut = m
+		if f != nil {
+			f(&j)
+		}
+		jobs = append(jobs, j)
+	})
+	return env, jobs, nil
+}
+
 func histSpecs(r *hx.Rand, tier string) []HistSpec {
 	hs := []HistSpec{
 		{Seed: r.Uint64(), NTx: 3, PageSize: 512},
@@ -1106,6 +1137,25 @@ func main() {
 			}
 		}
 	}
+	// legacy (v0.3.x) layout replicas: the same single damages, through both restore entry points
+	for v := 1; v <= 2; v++ {
+		h := HistSpec{Seed: rb.Uint64(), Legacy: v}
+		env, jobs, err := legacyHist(h, filepath.Join(scratch, fmt.Sprintf("legacy%d", v)), thorough)
+		if err != nil {
+			res.Count("history/build-failed")
+			res.Notes = append(res.Notes, fmt.Sprintf("HARNESS: legacy history %+v could not be built: %v", h, err))
+			histFailed++
+			continue
+		}
+		_ = env
+		t1 := time.Now()
+		outs := runRestoreJobs(drv, jobs, filepath.Join(scratch, fmt.Sprintf("lw%d", v)), par)
+		fmt.Fprintf(os.Stderr, "c10: legacy history %d: %d restore jobs in %.1fs\n", v, len(jobs), time.Since(t1).Seconds())
+		for _, ro := range outs {
+			res.Count(fmt.Sprintf("legacy/%s/%s->%s", ro.job.mut.Entry, map[string]string{"": "none"}[ro.job.mut.LegacyOp]+ro.job.mut.LegacyOp, strings.SplitN(ro.obs.Res, "(", 2)[0]))
+			judgeRestore(res, ro)
+		}
+	}
 	if histBuilt == 0 || histFailed > 1 {
 		hx.Fatal(fmt.Errorf("%d histories could not be built (%d built): see notes", histFailed, histBuilt))
 	}
@@ -1154,6 +1204,21 @@ func runPayload(res *hx.Result, drv *hx.Driver, p *Payload, scratch string) bool
 	}
 	h := p.Restore.Hist
 	dir, _ := os.MkdirTemp(scratch, "replay-")
+	if h.Legacy > 0 {
+		_, jobs, err := legacyHist(h, filepath.Join(dir, "legacy"), false)
+		if err != nil {
+			hx.Fatal(err)
+		}
+		want := fmt.Sprintf("%+v", p.Restore.Mut)
+		for _, j := range jobs {
+			if fmt.Sprintf("%+v", j.mut) == want {
+				outs := runRestoreJobs(drv, []restoreJob{j}, filepath.Join(dir, "w"), 1)
+				fmt.Fprintf(os.Stderr, "legacy restore case: hist=%+v mut=%+v\n impl: %s (err %q) state {%s}\n oracle: %q\n", h, j.mut, outs[0].obs.canon(), outs[0].obs.Err, outs[0].obs.Logical, restoreOracle(j.mut, outs[0].obs))
+				return judgeRestore(res, outs[0])
+			}
+		}
+		hx.Fatal(fmt.Errorf("legacy case not found among the regenerated jobs"))
+	}
 	env, err := buildReplica(filepath.Join(dir, "h"), h)
 	if err != nil {
 		hx.Fatal(err)
